@@ -27,6 +27,8 @@ pub struct Sink {
     pub log: bool,
     /// kind of the terminal error (anything but Interrupted)
     pub fault_kind: io::ErrorKind,
+    pub burst_call: u64,
+    burst_left: u32,
     decisive: u64,
     intr_budget: u32,
 }
@@ -43,6 +45,8 @@ impl Sink {
             rng: crate::rng(seed, 0x7171),
             log: true,
             fault_kind: crate::source::FAULT_KINDS[(seed.wrapping_mul(0x9E3779B97F4A7C15) >> 33) as usize % crate::source::FAULT_KINDS.len()],
+            burst_call: if seed % 3 == 0 { 1 + (seed / 3) % 3 } else { 0 },
+            burst_left: [70u32, 130, 300][(seed / 9 % 3) as usize],
             decisive: 0,
             intr_budget: 0,
         }
@@ -55,6 +59,14 @@ impl Sink {
 impl Write for Sink {
     fn write(&mut self, buf: &[u8]) -> io::Result<usize> {
         self.state.borrow_mut().write_calls += 1;
+        // a long burst of interruptions in front of one write: still only a delay
+        if self.intr_pm > 0 && self.burst_call == self.decisive + 1 && self.burst_left > 0 {
+            self.burst_left -= 1;
+            if self.log {
+                crate::trace::rec(json!({"ev":"sink","offered":buf.len(),"kind":"intr","n":0,"bytes":[]}));
+            }
+            return Err(io::Error::new(io::ErrorKind::Interrupted, "transient"));
+        }
         if self.intr_budget < 2 && self.rng.gen_range(0..1000) < self.intr_pm {
             self.intr_budget += 1;
             if self.log {
